@@ -20,6 +20,10 @@
    On an unbuffered channel a communication is a JOINT step: [ESent x] with cap = 0 is enabled while the
    pump stands at a select with a receive arm (and commits that arm: the value goes straight into the queue),
    [ERcvd v] with cap = 0 while the pump offers the head on [eg] (main select or flush).
+   Every event of the environment may wake the parked pump (a select whose arm became ready is committed to
+   it at that moment): the pump is then [busy] until its own step [AWake] brings it to its next select/loop
+   test; while busy it is parked nowhere, so no rendezvous is possible. This only matters when the driver does
+   not wait for the pump between two moves: a quiescent state is never busy.
 
    [dev] holds one boolean per way in which the code shipped before the repair commit 26d9cef deviated; the
    theorems are about [repaired]; [shipped] is kept so that a regression is recognisable. *)
@@ -36,7 +40,7 @@ Definition repaired : dev := mkdev false true true.
 Definition shipped : dev := mkdev true false false.
 
 Inductive ppc := PMain | PDrain | PFlush | PRet | PDone.
-Inductive arm := ADone | ARecv | ASend | ADefault | AReturn.
+Inductive arm := ADone | ARecv | ASend | ADefault | AReturn | AWake.
 
 Record state := mkst {
   sent : list Z;                  (* ghost: values whose send completed, in order *)
@@ -51,6 +55,7 @@ Record state := mkst {
   cancelled : bool;
   at_cancel : option (list Z);    (* ghost: [sent] at the moment of ECancel *)
   pc : ppc;
+  busy : bool;                    (* the pump was woken by a rendezvous and has not come back to its select/loop yet *)
   panic : bool
 }.
 
@@ -62,30 +67,35 @@ Inductive ev :=
 | ECancel
 | EPump (a : arm).                (* internal step of the pump *)
 
-Definition init : state := mkst [] [] false false [] [] false [] false false None PMain false.
+Definition init : state := mkst [] [] false false [] [] false [] false false None PMain false false.
 
 Definition crash (s : state) : state :=
   mkst (sent s) (inbuf s) (in_closed s) (snd_closed s) (q s) (egbuf s) (eg_closed s) (rcvd s) (seen_closed s)
-       (cancelled s) (at_cancel s) (pc s) true.
+       (cancelled s) (at_cancel s) (pc s) (busy s) true.
 Definition goto (s : state) (p : ppc) : state :=
   mkst (sent s) (inbuf s) (in_closed s) (snd_closed s) (q s) (egbuf s) (eg_closed s) (rcvd s) (seen_closed s)
-       (cancelled s) (at_cancel s) p false.
+       (cancelled s) (at_cancel s) p (busy s) false.
 (* enq(&x, mq) of a value taken from the buffer of [in] *)
 Definition take_in (s : state) (x : Z) (r : list Z) : state :=
   mkst (sent s) r (in_closed s) (snd_closed s) (q s ++ [x]) (egbuf s) (eg_closed s) (rcvd s) (seen_closed s)
-       (cancelled s) (at_cancel s) (pc s) false.
+       (cancelled s) (at_cancel s) (pc s) (busy s) false.
 (* eg <- head(mq) ; deq(mq)  into the buffer of [eg] *)
 Definition put_eg (s : state) (y : Z) (r : list Z) : state :=
   mkst (sent s) (inbuf s) (in_closed s) (snd_closed s) r (egbuf s ++ [y]) (eg_closed s) (rcvd s) (seen_closed s)
-       (cancelled s) (at_cancel s) (pc s) false.
+       (cancelled s) (at_cancel s) (pc s) (busy s) false.
 (* return: the deferred closes *)
 Definition do_return (d : dev) (s : state) : state :=
   if pump_closes_in d && in_closed s then crash s                 (* close of closed channel *)
   else if eg_closed s then crash s
   else mkst (sent s) (inbuf s) (pump_closes_in d || in_closed s) (snd_closed s) (q s) (egbuf s) true (rcvd s)
-            (seen_closed s) (cancelled s) (at_cancel s) PDone false.
+            (seen_closed s) (cancelled s) (at_cancel s) PDone (busy s) false.
+
+Definition wake (s : state) : state :=
+  mkst (sent s) (inbuf s) (in_closed s) (snd_closed s) (q s) (egbuf s) (eg_closed s) (rcvd s) (seen_closed s)
+       (cancelled s) (at_cancel s) (pc s) false false.
 
 Definition pump (cin ceg : nat) (d : dev) (s : state) (a : arm) : option state :=
+  if busy s then match a with AWake => Some (wake s) | _ => None end else
   match pc s, a with
   | PMain, ADone =>
       if cancelled s then Some (goto s (if drain_on_cancel d then PDrain else PFlush)) else None
@@ -123,25 +133,25 @@ Definition step (cin ceg : nat) (d : dev) (s : state) (e : ev) : option state :=
       else if in_closed s then Some (crash s)                     (* send on a channel the pump closed *)
       else if has_room (inbuf s) cin
       then Some (mkst (sent s ++ [x]) (inbuf s ++ [x]) (in_closed s) (snd_closed s) (q s) (egbuf s) (eg_closed s)
-                      (rcvd s) (seen_closed s) (cancelled s) (at_cancel s) (pc s) false)
-      else if (cin =? 0) && at_recv_select (pc s)                 (* rendezvous with the pump's receive arm *)
+                      (rcvd s) (seen_closed s) (cancelled s) (at_cancel s) (pc s) true false)
+      else if (cin =? 0) && at_recv_select (pc s) && negb (busy s)                 (* rendezvous with the pump's receive arm *)
       then Some (mkst (sent s ++ [x]) (inbuf s) (in_closed s) (snd_closed s) (q s ++ [x]) (egbuf s) (eg_closed s)
-                      (rcvd s) (seen_closed s) (cancelled s) (at_cancel s) (pc s) false)
+                      (rcvd s) (seen_closed s) (cancelled s) (at_cancel s) (pc s) true false)
       else None                                                   (* the send waits *)
   | ERcvd v =>
       match egbuf s with
       | y :: r =>
           if Z.eqb v y
           then Some (mkst (sent s) (inbuf s) (in_closed s) (snd_closed s) (q s) r (eg_closed s) (rcvd s ++ [v])
-                          (seen_closed s) (cancelled s) (at_cancel s) (pc s) false)
+                          (seen_closed s) (cancelled s) (at_cancel s) (pc s) true false)
           else None
       | [] =>
-          if negb (eg_closed s) && (ceg =? 0) && at_send (pc s)   (* rendezvous with the pump's send *)
+          if negb (eg_closed s) && (ceg =? 0) && at_send (pc s) && negb (busy s)   (* rendezvous with the pump's send *)
           then match q s with
                | y :: r =>
                    if Z.eqb v y
                    then Some (mkst (sent s) (inbuf s) (in_closed s) (snd_closed s) r (egbuf s) (eg_closed s)
-                                   (rcvd s ++ [v]) (seen_closed s) (cancelled s) (at_cancel s) (pc s) false)
+                                   (rcvd s ++ [v]) (seen_closed s) (cancelled s) (at_cancel s) (pc s) true false)
                    else None
                | [] => None
                end
@@ -150,17 +160,17 @@ Definition step (cin ceg : nat) (d : dev) (s : state) (e : ev) : option state :=
   | ERcvdClosed =>
       if eg_closed s && is_nil (egbuf s)
       then Some (mkst (sent s) (inbuf s) (in_closed s) (snd_closed s) (q s) (egbuf s) (eg_closed s) (rcvd s) true
-                      (cancelled s) (at_cancel s) (pc s) false)
+                      (cancelled s) (at_cancel s) (pc s) (busy s) false)
       else None
   | ECloseSnd =>
       if snd_closed s then None                                   (* a sender closes once *)
       else if in_closed s then Some (crash s)                     (* close of a channel the pump closed *)
       else Some (mkst (sent s) (inbuf s) true true (q s) (egbuf s) (eg_closed s) (rcvd s) (seen_closed s)
-                      (cancelled s) (at_cancel s) (pc s) false)
+                      (cancelled s) (at_cancel s) (pc s) true false)
   | ECancel =>
       if cancelled s then None
       else Some (mkst (sent s) (inbuf s) (in_closed s) (snd_closed s) (q s) (egbuf s) (eg_closed s) (rcvd s)
-                      (seen_closed s) true (Some (sent s)) (pc s) false)
+                      (seen_closed s) true (Some (sent s)) (pc s) true false)
   | EPump a => pump cin ceg d s a
   end.
 
@@ -171,7 +181,7 @@ Fixpoint exec_from (cin ceg : nat) (d : dev) (s : state) (tr : list ev) : option
   end.
 Definition exec (cin ceg : nat) (d : dev) (tr : list ev) : option state := exec_from cin ceg d init tr.
 
-Definition arms : list arm := [ADone; ARecv; ASend; ADefault; AReturn].
+Definition arms : list arm := [ADone; ARecv; ASend; ADefault; AReturn; AWake].
 (* no internal step of the pump is enabled: the pump is parked (or gone) *)
 Definition quiescent (cin ceg : nat) (d : dev) (s : state) : Prop := forall a, step cin ceg d s (EPump a) = None.
 Definition quiescentb (cin ceg : nat) (d : dev) (s : state) : bool :=
@@ -179,4 +189,6 @@ Definition quiescentb (cin ceg : nat) (d : dev) (s : state) : bool :=
 
 (* bound on what the pump and the receiver can still do without the sender *)
 Definition rank (p : ppc) : nat := match p with PMain => 4 | PDrain => 3 | PFlush => 2 | PRet => 1 | PDone => 0 end.
-Definition nu (s : state) : nat := 3 * length (inbuf s) + 2 * length (q s) + length (egbuf s) + rank (pc s).
+Definition nu (s : state) : nat :=
+  4 * length (inbuf s) + 3 * length (q s) + 2 * length (egbuf s) + 2 * rank (pc s)
+  + (if busy s then 1 else 0).
